@@ -1,4 +1,5 @@
 import PytezosModel.Proofs.C12
+import PytezosModel.Proofs.C11Civil
 /-! C12 — Python-object conversion of contract data round-trips.
 
 Mirror: `Impl.PyConv` (`get_type_layout`, `wrap_pair`, `wrap_or`, `iter_type_args`, `iter_values`, every
@@ -25,37 +26,66 @@ Field names are NOT part of the guard any more: `get_type_layout` (repaired, fix
 the former counter-examples `pair (nat %nat_1) nat`, `or (nat %string_1) string` now convert back
 (`name_collision_repaired`, `name_collision_or_repaired`).  `source_shape` does not close when the name generator has
 the old shape again (`Generated.C12.generatedNamesFresh = some false`).  No depth bound anywhere: the proofs are by
-induction over the type (and over the lists inside values). -/
+induction over the type (and over the lists inside values).
+
+Extension (leaves of the domain): the type universe of every theorem below now has `address`, `key_hash`, `key`,
+`signature`, `chain_id`, `contract p`, `bls12_381_fr / g1 / g2` and `never` as leaves, anywhere (also as set elements /
+map keys where Michelson allows it).  The statements are unchanged; `c : Cfg` is now the source flags (`c.toFlags`,
+pinned by `hc`) PLUS the parameters this property does not own — `c.valid` (`is_address`, `is_pkh`, `is_public_key`,
+`is_sig`, `is_chain_id`: base58, C09), `c.raw` (`base58_decode`), `c.originated0` — which are universally
+quantified and need NO law: a value of a base58 leaf is by definition (`HasTy`) a text `from_value` keeps unchanged,
+and `to_python_object` returns that text.  The guard grows by one genuine clause: `contract` and the three bls12_381
+types in key position (not Michelson types there; `to_python_object(comparable=True)` asserts).  No information is lost
+on any new leaf (a signature keeps its text: the prefix only disappears in the optimized MICHELINE form, which is
+C11's `binNorm`, not this conversion).  The alternative INPUT forms (`from_python_object` only; they are not in the
+image of `to_python_object`) have their own theorems: `timestamp_text_meaning`, `address_default_stripped`,
+`mutez_decimal_exact`, and kernel-evaluated examples for hex text and the 28-digit context rounding.
+
+Extensions 2 and 3 add two hypotheses to the round-trip theorems, and nothing else: `ht : c.tryUnpack = false` — the
+call the property is about is `to_python_object()`; with `try_unpack=True` the conversion is a display mode that is
+inherently not invertible (`try_unpack_counterexample`) — and `hl : CodeLaw c` — the Michelson source text of a lambda
+body reads back as that body, C18's property, taken as a parameter with its law (the only law assumed).  `ticket t`
+(↔ `(ticketer, contents, amount)`) and `lambda` (↔ source text) are ordinary cases of the induction. -/
 namespace C12
 open Impl.PyConv Spec.PyConv
 
-/-- what the translator has to find in the source for the theorems below to apply -/
-theorem source_shape : cfg? = some ⟨true, true⟩ := by decide
+/-- `BLS12_381_FrType.modulus` as the mirror was made for -/
+def frModulus : Nat := 0x73EDA753299D7D483339D80809A1D80553BDA402FFFE5BFEFFFFFFFF00000001
 
-theorem cfg_unit {c : Cfg} (hc : cfg? = some c) : c.unitHashable = true := by
-  rw [source_shape] at hc; cases hc; rfl
+/-- what the translator has to find in the source for the theorems below to apply -/
+theorem source_shape : cfg? = some ⟨true, true, frModulus⟩ := by decide
+
+/-- `c : Cfg` is the flags read from the source (`c.toFlags`, tied to the source by `hc` in every theorem) plus the
+parameters `valid` / `raw` / `originated0`, which are universally quantified and need no law -/
+theorem cfg_unit {c : Cfg} (hc : cfg? = some c.toFlags) : c.unitHashable = true := by
+  rw [source_shape] at hc
+  have := congrArg (fun o => o.map Flags.unitHashable) hc
+  simpa using this.symm
 
 /-- the round trip, all invertible types, all values; `…_partial`: the full statement (no guard) is false, see the
 counter-examples below -/
-theorem ofPy_toPy_partial (c : Cfg) (hc : cfg? = some c) (τ : Ty) (v : Val)
+theorem ofPy_toPy_partial (c : Cfg) (hc : cfg? = some c.toFlags) (ht : c.tryUnpack = false)
+    (hl : CodeLaw c) (τ : Ty) (v : Val)
     (hτ : PyInvertible c τ) (hv : HasTy c τ v) :
     (toPy c false τ v).bind (ofPy c τ) = .ok v := by
-  obtain ⟨py, h1, h2, _, _⟩ := (roundtrip_all c (cfg_unit hc) τ).1 false v hτ hv
+  obtain ⟨py, h1, h2, _, _⟩ := (roundtrip_all c (cfg_unit hc) ht hl τ).1 false v hτ hv
   rw [h1]; exact h2
 
 /-- the same for the rendering of map keys / set elements (`comparable=True`: pairs as tuples, unions as
 `(name, value)`), and the object is hashable -/
-theorem ofPy_toPy_key_partial (c : Cfg) (hc : cfg? = some c) (τ : Ty) (v : Val)
+theorem ofPy_toPy_key_partial (c : Cfg) (hc : cfg? = some c.toFlags) (ht : c.tryUnpack = false)
+    (hl : CodeLaw c) (τ : Ty) (v : Val)
     (hτ : inv c true τ = true) (hv : HasTy c τ v) :
     ∃ py, toPy c true τ v = .ok py ∧ ofPy c τ py = .ok v ∧ py.hashable c = true := by
-  obtain ⟨py, h1, h2, h3, _⟩ := (roundtrip_all c (cfg_unit hc) τ).1 true v hτ hv
+  obtain ⟨py, h1, h2, h3, _⟩ := (roundtrip_all c (cfg_unit hc) ht hl τ).1 true v hτ hv
   exact ⟨py, h1, h2, h3 rfl⟩
 
 /-- different values have different Python objects -/
-theorem toPy_injective_partial (c : Cfg) (hc : cfg? = some c) (τ : Ty) (u v : Val)
+theorem toPy_injective_partial (c : Cfg) (hc : cfg? = some c.toFlags) (ht : c.tryUnpack = false)
+    (hl : CodeLaw c) (τ : Ty) (u v : Val)
     (hτ : PyInvertible c τ) (hu : HasTy c τ u) (hv : HasTy c τ v) (h : toPy c false τ u = toPy c false τ v) : u = v := by
-  have h1 := ofPy_toPy_partial c hc τ u hτ hu
-  have h2 := ofPy_toPy_partial c hc τ v hτ hv
+  have h1 := ofPy_toPy_partial c hc ht hl τ u hτ hu
+  have h2 := ofPy_toPy_partial c hc ht hl τ v hτ hv
   rw [h] at h1
   rw [h1] at h2
   exact Except.ok.inj h2
@@ -87,28 +117,152 @@ theorem field_names_unchanged_without_collision (flat : List (Path × Ty)) (infe
 
 /-- field names are stable: the layout is a function of the type alone (`pairLayout τ`), and the record every value
 of a named pair converts to has exactly the layout's names as keys, in the layout's order -/
-theorem layout_stable (c : Cfg) (hc : cfg? = some c) (a : Ann) (l r : Ty) (v : Val)
+theorem layout_stable (c : Cfg) (hc : cfg? = some c.toFlags) (ht : c.tryUnpack = false)
+    (hl : CodeLaw c) (a : Ann) (l r : Ty) (v : Val)
     (hτ : PyInvertible c (.pair a l r)) (hv : HasTy c (.pair a l r) v)
     (p2k : List (Path × String)) (hm : (pairLayout (.pair a l r)).pathToKey = some p2k) :
     ∃ fields, toPy c false (.pair a l r) v = .ok (.record fields) ∧ fields.map (·.1) = p2k.map (·.2) :=
-  pair_record_keys c (cfg_unit hc) a l r v hτ hv p2k hm
+  pair_record_keys c (cfg_unit hc) ht hl a l r v hτ hv p2k hm
 
 /-- `ContractData.decode` / `encode` are mutual inverses (given that the Micheline coding of values round-trips,
 which is C11): decoding the Micheline form of `v` gives an object whose encoding is that Micheline form again, and
 decoding that gives the same object -/
-theorem encode_decode_inverse {M : Type} (k : Codec M) (c : Cfg) (hc : cfg? = some c) (τ : Ty) (v : Val)
+theorem encode_decode_inverse {M : Type} (k : Codec M) (c : Cfg) (hc : cfg? = some c.toFlags) (ht : c.tryUnpack = false)
+    (hl : CodeLaw c) (τ : Ty) (v : Val)
     (hk : k.ofMich τ (k.toMich τ v) = .ok v) (hτ : PyInvertible c τ) (hv : HasTy c τ v) :
     ∃ py, decode k c τ (k.toMich τ v) = .ok py
       ∧ encode k c τ py = .ok (k.toMich τ v)
       ∧ (encode k c τ py).bind (decode k c τ) = .ok py := by
-  obtain ⟨py, h1, h2, _, _⟩ := (roundtrip_all c (cfg_unit hc) τ).1 false v hτ hv
+  obtain ⟨py, h1, h2, _, _⟩ := (roundtrip_all c (cfg_unit hc) ht hl τ).1 false v hτ hv
   refine ⟨py, by simp [decode, hk, Except.bind, h1], by simp [encode, h2, Except.map], ?_⟩
   simp [encode, decode, h2, Except.map, Except.bind, hk, h1]
 
+def natT : Ty := .scalar {} .nat
+/-- the flags of the source as it is now; no text is a valid base58 value (the examples below that need one say so) -/
+def cfgNow : Cfg := { unitHashable := true, pairLtLex := true, frModulus := frModulus }
+def cfgNoHash : Cfg := { unitHashable := false, pairLtLex := true, frModulus := frModulus }
+
+/-! ### the alternative input forms of the leaves (`from_python_object` only) -/
+
+/-- a timestamp given as the RFC 3339 text of `t` (`format_timestamp`, any `t` of 0001-01-01 … 9999-12-31) is `t`:
+`optimize_timestamp` is C11's proved `Civil.parseTimestamp` -/
+theorem timestamp_text_meaning (c : Cfg) (a : Ann) (t : Int) (h0 : Civil.tsMin ≤ t) (h1 : t ≤ Civil.tsMax) :
+    ∃ cs, Civil.fmtTimestamp true t = some cs
+      ∧ ofPy c (.scalar a .timestamp) (.str (String.ofList cs)) = .ok (.int t) := by
+  obtain ⟨cs, hs, hp⟩ := Civil.parse_fmt t h0 h1
+  exact ⟨cs, hs, by simp [ofPy, scalarOfPy, optimizeTimestamp, String.toList_ofList, hp, Except.map]⟩
+
+/-- `'<address>%default'` stands for `<address>` (whenever that is an address), for `address` and `contract p` -/
+theorem address_default_stripped (c : Cfg) (a : Ann) (p : Ty) (addr : List Char) (hp : '%' ∉ addr)
+    (hv : c.valid .address (String.ofList addr) = true) :
+    ofPy c (.scalar a .address) (.str (String.ofList (addr ++ "%default".toList))) = .ok (.str (String.ofList addr))
+    ∧ ofPy c (.contract a p) (.str (String.ofList (addr ++ "%default".toList))) = .ok (.str (String.ofList addr)) := by
+  have hne : ∀ x ∈ addr, decide (x ≠ '%') = true := fun x hx => by
+    simp only [ne_eq, decide_eq_true_eq]; rintro rfl; exact hp hx
+  have h1 : (addr ++ "%default".toList).dropWhile (fun x => decide (x ≠ '%')) = "%default".toList := by
+    rw [List.dropWhile_append_of_pos hne]; rfl
+  have h2 : (addr ++ "%default".toList).takeWhile (fun x => decide (x ≠ '%')) = addr := by
+    rw [List.takeWhile_append_of_pos hne]; simp [List.takeWhile]
+  have hpart : partitionPct (String.ofList (addr ++ "%default".toList)) = (String.ofList addr, some "default") := by
+    simp only [partitionPct, String.toList_ofList]
+    rw [h1, h2]
+    rfl
+  have hfv : addressFromValue c (String.ofList (addr ++ "%default".toList)) = .ok (String.ofList addr) := by
+    unfold addressFromValue
+    rw [hpart]
+    simp only [hv, if_true]
+  constructor <;> simp only [ofPy, scalarOfPy, hfv, Except.map]
+
+/-- an amount given as a `Decimal` with at most 22 significant digits (every amount below 2^63 mutez written with at
+most 6 decimals has at most 19) is its exact value in mutez, truncated toward zero — the 28-digit context plays no
+role there -/
+theorem mutez_decimal_exact (neg : Bool) (coef : Nat) (exp : Int) (h : coef < 10 ^ 22) :
+    mutezOfDec (.fin neg coef exp) = .ok (decToInt neg (coef * 1000000) exp) := by
+  have hd : numDigits (coef * 1000000) ≤ 28 := by
+    unfold numDigits
+    have : coef * 1000000 < 10 ^ 28 := by omega
+    exact (Nat.length_toDigits_le_iff (b := 10) (by omega) (by omega)).mpr this
+  simp [mutezOfDec, ctxRound, hd]
+
+/-- text and `Decimal` forms of mutez, hex text of bytes / bls12_381_fr, kernel-evaluated; among them the one place
+where the 28-digit context of `decimal` shows: 31 nines after the point are rounded UP to one tez before `int(·)` -/
+theorem input_forms_examples :
+    okVal (ofPy cfgNow (.scalar {} .mutez) (.str "1.5")) (.int 1500000) = true
+    ∧ okVal (ofPy cfgNow (.scalar {} .mutez) (.str " 1e3 ")) (.int 1000000000) = true
+    ∧ okVal (ofPy cfgNow (.scalar {} .mutez) (.decimal false 19 (-7))) (.int 1) = true
+    ∧ okVal (ofPy cfgNow (.scalar {} .mutez) (.str "9223372036854.775807")) (.int 9223372036854775807) = true
+    ∧ isErr (ofPy cfgNow (.scalar {} .mutez) (.str "9223372036854.775808")) .overflow = true
+    ∧ isErr (ofPy cfgNow (.scalar {} .mutez) (.str "-1")) .assertion = true
+    ∧ isErr (ofPy cfgNow (.scalar {} .mutez) (.str "NaN")) .assertion = true
+    ∧ isErr (ofPy cfgNow (.scalar {} .mutez) (.str "Infinity")) .overflow = true
+    ∧ okVal (ofPy cfgNow (.scalar {} .mutez) (.str "0.9999999999999999999999999999999")) (.int 1000000) = true
+    ∧ okVal (ofPy cfgNow (.scalar {} .bytes) (.str "0x0aFF")) (.bytes [10, 255]) = true
+    ∧ okVal (ofPy cfgNow (.scalar {} .bytes) (.str "0a ff")) (.bytes [10, 255]) = true
+    ∧ isErr (ofPy cfgNow (.scalar {} .bytes) (.str "0X0a")) .assertion = true
+    ∧ okVal (ofPy cfgNow (.scalar {} .blsFr) (.str "0x0100")) (.int 1) = true
+    ∧ okVal (ofPy cfgNow (.scalar {} .blsFr) (.int (-1))) (.int (frModulus - 1)) = true
+    ∧ okVal (ofPy cfgNow (.scalar {} .timestamp) (.str "1970-01-01T00:00:01Z")) (.int 1) = true
+    ∧ okVal (ofPy cfgNow (.scalar {} .timestamp) (.str " 12 ")) (.int 12) = true := by
+  decide +kernel
+
+/-! ### `try_unpack=True`: a display mode, outside the round trip
+
+`ht : c.tryUnpack = false` in the theorems above says which call they are about (`to_python_object()` as
+`ContractData.decode` makes it).  With `try_unpack=True` every `bytes` leaf is shown as `blind_unpack(value)`; the
+mirror `blindUnpack` has the whole decision (seven readings tried in order, by length and tag bytes) and takes the
+base58 texts and the content of PACKed data as parameters. -/
+
+/-- a configuration with `try_unpack=True` in which PACK "a" (`0x05 01 00000001 61`) unpacks to `'a'` -/
+def cfgUnpack : Cfg :=
+  { unitHashable := true, pairLtLex := true, frModulus := frModulus, tryUnpack := true
+    b58 := fun pre pl => pre ++ ":" ++ toString pl.length
+    unpackMich := fun d => if d = [1, 0, 0, 0, 1, 97] then some (.str "a") else none }
+
+/-- the mode is neither invertible nor injective — inherent: the bytes `0x61` and the bytes of PACK "a" are both shown
+as `'a'`, which `from_python_object` of `bytes` does not take back; a map with these two keys is shown with one -/
+theorem try_unpack_counterexample :
+    okPy (toPy cfgUnpack false (.scalar {} .bytes) (.bytes [97])) (.str "a") = true
+    ∧ okPy (toPy cfgUnpack false (.scalar {} .bytes) (.bytes [5, 1, 0, 0, 0, 1, 97])) (.str "a") = true
+    ∧ isErr (ofPy cfgUnpack (.scalar {} .bytes) (.str "a")) .assertion = true
+    ∧ okPy (toPy cfgUnpack false (.map {} (.scalar {} .bytes) natT)
+        (.map [(.bytes [5, 1, 0, 0, 0, 1, 97], .int 1), (.bytes [97], .int 2)])) (.dict [(.str "a", .int 2)]) = true := by
+  decide +kernel
+
+/-- every 4-byte value is shown as a chain id -/
+theorem blindUnpack_four_bytes (c : Cfg) (d : List Nat) (h : d.length = 4) : blindUnpack c d = .str (c.b58 "Net" d) := by
+  simp [blindUnpack, h]
+
+/-- the bytes that stay bytes: no base58 reading fits, the value is not readable PACKed data and is not UTF-8 -/
+theorem blindUnpack_stays_bytes (c : Cfg) (d : List Nat) (h4 : d.length ≠ 4) (ha : unforgeAddressPlan d = none)
+    (hk : unforgeKeyPlan d = none) (h96 : d.length ≠ 96) (h64 : d.length ≠ 64)
+    (hp : ∀ body, d = 5 :: body → c.unpackMich body = none) (hu : utf8Decode d = none) :
+    blindUnpack c d = .bytes d := by
+  unfold blindUnpack
+  simp only [h4, ha, hk, h96, h64, if_false, hu]
+  split
+  · rename_i o ho
+    split at ho
+    · rename_i body; rw [hp body rfl] at ho; cases ho
+    · cases ho
+  · rfl
+
+/-- the order of the readings, kernel-evaluated: 21 bytes with tag 0 → tz1 key hash; 22 bytes `01…00` → KT1; 33 bytes
+with tag 0 → edpk; 64 bytes → sig; `0x05` alone (not readable) and `0xff` (not UTF-8) stay bytes; `0xc3a9` is `'é'` -/
+theorem blindUnpack_examples :
+    PyObj.beq (blindUnpack cfgUnpack (0 :: List.replicate 20 7)) (.str "tz1:20") = true
+    ∧ PyObj.beq (blindUnpack cfgUnpack (1 :: List.replicate 20 7 ++ [0])) (.str "KT1:20") = true
+    ∧ PyObj.beq (blindUnpack cfgUnpack (0 :: List.replicate 32 7)) (.str "edpk:32") = true
+    ∧ PyObj.beq (blindUnpack cfgUnpack (List.replicate 64 7)) (.str "sig:64") = true
+    ∧ PyObj.beq (blindUnpack cfgUnpack (List.replicate 96 200)) (.str "BLsig:96") = true
+    ∧ PyObj.beq (blindUnpack cfgUnpack [5]) (.str "\x05") = true
+    ∧ PyObj.beq (blindUnpack cfgUnpack [5, 3, 175]) (.bytes [5, 3, 175]) = true
+    ∧ PyObj.beq (blindUnpack cfgUnpack [255]) (.bytes [255]) = true
+    ∧ PyObj.beq (blindUnpack cfgUnpack [195, 169]) (.str "é") = true
+    ∧ PyObj.beq (blindUnpack cfgUnpack [237, 160, 128]) (.bytes [237, 160, 128]) = true := by
+  decide +kernel
+
 /-! ### the excluded classes really fail (kernel-evaluated on the mirror; replayed on the real code by the check) -/
 
-def natT : Ty := .scalar {} .nat
-def cfgNow : Cfg := ⟨true, true⟩
 
 /-- `option (option nat)`: `Some None` and `None` have the same Python object, so `Some None` comes back as `None` -/
 theorem option_option_counterexample :
@@ -153,10 +307,107 @@ theorem name_collision_or_repaired :
 
 /-- what the source-dependent exclusions guard against: without `unit.__hash__` a set of units does not convert back -/
 theorem unhashable_unit_counterexample :
-    okPy (toPy ⟨false, true⟩ false (.set {} (.scalar {} .unit)) (.set [.unit])) (.list [.unit]) = true
-    ∧ isErr (ofPy ⟨false, true⟩ (.set {} (.scalar {} .unit)) (.list [.unit])) .type = true
-    ∧ inv ⟨false, true⟩ false (.set {} (.scalar {} .unit)) = false := by
+    okPy (toPy cfgNoHash false (.set {} (.scalar {} .unit)) (.set [.unit])) (.list [.unit]) = true
+    ∧ isErr (ofPy cfgNoHash (.set {} (.scalar {} .unit)) (.list [.unit])) .type = true
+    ∧ inv cfgNoHash false (.set {} (.scalar {} .unit)) = false := by
   decide +kernel
+
+/-- the one new clause of the guard: a `contract` / bls12_381 value in key position is refused on the way out -/
+theorem not_comparable_counterexample :
+    isErr (toPy cfgNow true (.scalar {} .blsFr) (.int 1)) .assertion = true
+    ∧ inv cfgNow true (.scalar {} .blsFr) = false
+    ∧ inv cfgNow false (.set {} (.contract {} natT)) = false
+    ∧ inv cfgNow false (.map {} (.scalar {} .blsG1) natT) = false
+    ∧ inv cfgNow false (.list {} (.contract {} natT)) = true := by
+  decide +kernel
+
+/-! ### ticket and lambda
+
+`ticket t` ↔ `(ticketer, contents, amount)` with the contents in the key rendering (`comparable=True`); `lambda` ↔ its
+Michelson source text.  Formatting / parsing source text is C18's: `c.codeText` / `c.codeOfText` are parameters and
+the law `CodeLaw c` (the text of a body reads back as that body) is the hypothesis `hl` of the theorems above. -/
+
+/-- a configuration in which `KT1A` is an address and the body `[{"prim":"DUP"}]` has the text `{ DUP }` -/
+def cfgCode : Cfg :=
+  { unitHashable := true, pairLtLex := true, frModulus := frModulus
+    valid := fun d s => d == .address && (partitionPct s).1 == "KT1A"
+    codeText := fun code => if code == "[{\"prim\":\"DUP\"}]" then "{ DUP }" else "{}"
+    codeOfText := fun s => if s == "{ DUP }" then some "[{\"prim\":\"DUP\"}]" else if s == "{}" then some "[]" else none
+    codeOk := fun code => code == "[{\"prim\":\"DUP\"}]" || code == "[]" }
+
+example : CodeLaw cfgCode := by
+  intro code h
+  simp only [cfgCode, Bool.or_eq_true, beq_iff_eq] at h ⊢
+  rcases h with rfl | rfl <;> decide
+
+/-- the shape the pinned `TicketType.from_python_object` could not take back (it read the object as a value of
+`pair address (pair t nat)`, whose layout flattens an unnamed pair `t`): `ticket (pair nat nat)` round-trips in the
+repaired shape the mirror follows; a ticket is refused as a key -/
+theorem ticket_of_pair_roundtrip :
+    okPy (toPy cfgCode false (.ticket {} (.pair {} natT natT)) (.ticket "KT1A" (.pair (.int 1) (.int 2)) 10))
+        (.tuple [.str "KT1A", .tuple [.int 1, .int 2], .int 10]) = true
+    ∧ okVal (ofPy cfgCode (.ticket {} (.pair {} natT natT)) (.tuple [.str "KT1A", .tuple [.int 1, .int 2], .int 10]))
+        (.ticket "KT1A" (.pair (.int 1) (.int 2)) 10) = true
+    ∧ inv cfgCode false (.ticket {} (.pair {} natT natT)) = true
+    ∧ inv cfgCode true (.ticket {} natT) = false
+    ∧ isErr (ofPy cfgCode (.ticket {} natT) (.tuple [.str "KT1A", .int 1, .int (-1)])) .assertion = true
+    ∧ isErr (ofPy cfgCode (.ticket {} natT) (.tuple [.str "tz1B", .int 1, .int 1])) .assertion = true
+    ∧ isErr (ofPy cfgCode (.ticket {} natT) (.tuple [.str "KT1A", .int 1])) .assertion = true := by
+  decide +kernel
+
+def vaultT : Ty :=
+  .pair {} (.list { field := some "tickets" } (.ticket {} (.or {} (.scalar { field := some "ft" } .nat) (.scalar { field := some "nft" } .bytes))))
+    (.lambda { field := some "hook" } natT natT)
+def vaultV : Val := .pair (.list [.ticket "KT1A%mint" (.left (.int 7)) 3, .ticket "KT1A" (.right (.bytes [1])) 0]) (.lambda "[{\"prim\":\"DUP\"}]")
+
+example : PyInvertible cfgCode vaultT := by decide +kernel
+example : okPy (toPy cfgCode false vaultT vaultV)
+    (.record [("tickets", .list [.tuple [.str "KT1A%mint", .tuple [.str "ft", .int 7], .int 3],
+                                 .tuple [.str "KT1A", .tuple [.str "nft", .bytes [1]], .int 0]]),
+              ("hook", .str "{ DUP }")]) = true := by decide +kernel
+example : okVal ((toPy cfgCode false vaultT vaultV).bind (ofPy cfgCode vaultT)) vaultV = true := by decide +kernel
+
+/-! ### non-vacuity for the base58 leaves: a configuration in which some texts are valid -/
+
+/-- `KT1A` is an address (with any entrypoint), `tz1B` an address and a key hash, `edpkC` a key, `sigD` a signature,
+`NetE` a chain id; `KT1A` is `get_originated_address(0)` -/
+def cfgDemo : Cfg :=
+  { unitHashable := true, pairLtLex := true, frModulus := frModulus
+    valid := fun d s => match d with
+      | .address => (partitionPct s).1 == "KT1A" || (partitionPct s).1 == "tz1B"
+      | .keyHash => s == "tz1B"
+      | .key => s == "edpkC"
+      | .signature => s == "sigD"
+      | .chainId => s == "NetE"
+    raw := fun s => s.toList.map Char.toNat
+    originated0 := "KT1A" }
+
+def walletT : Ty :=
+  .pair {} (.map { field := some "allow" } (.scalar {} .address) (.contract {} natT))
+    (.pair {} (.set { field := some "keys" } (.pair {} (.scalar {} .key) (.scalar {} .keyHash)))
+      (.pair {} (.option { field := some "sig" } (.scalar {} .signature))
+        (.pair {} (.scalar { field := some "chain" } .chainId) (.scalar { field := some "r" } .blsFr))))
+
+def walletV : Val :=
+  .pair (.map [(.str "tz1B", .str "KT1A%mint"), (.str "KT1A", .str "KT1A"), (.str "KT1A%x", .str "tz1B")])
+    (.pair (.set [.pair (.str "edpkC") (.str "tz1B")]) (.pair (.some (.str "sigD")) (.pair (.str "NetE") (.int 5))))
+
+example : PyInvertible cfgDemo walletT := by decide +kernel
+example : okPy (toPy cfgDemo false walletT walletV)
+    (.record [("allow", .dict [(.str "tz1B", .str "KT1A%mint"), (.str "KT1A", .str "KT1A"), (.str "KT1A%x", .str "tz1B")]),
+              ("keys", .list [.tuple [.str "edpkC", .str "tz1B"]]), ("sig", .str "sigD"), ("chain", .str "NetE"),
+              ("r", .int 5)]) = true := by decide +kernel
+example : okVal ((toPy cfgDemo false walletT walletV).bind (ofPy cfgDemo walletT)) walletV = true := by decide +kernel
+-- the values above are values (`HasTy`): `from_value` keeps each text
+example : okVal (ofPy cfgDemo (.scalar {} .address) (.str "KT1A%mint")) (.str "KT1A%mint") = true
+    ∧ okVal (ofPy cfgDemo (.scalar {} .address) (.str "KT1A%default")) (.str "KT1A") = true
+    ∧ isErr (ofPy cfgDemo (.scalar {} .keyHash) (.str "KT1A")) .assertion = true
+    ∧ okVal (ofPy cfgDemo (.contract {} natT) .none) (.str "KT1A") = true
+    ∧ isErr (ofPy cfgDemo (.scalar {} .address) (.bytes [75])) .type = true := by decide +kernel
+-- a map given in another order comes back in `AddressType.__lt__`'s order (implicit < originated; then text, entrypoint)
+example : okVal (ofPy cfgDemo (.map {} (.scalar {} .address) natT)
+      (.dict [(.str "KT1A%x", .int 1), (.str "KT1A", .int 2), (.str "tz1B", .int 3)]))
+    (.map [(.str "tz1B", .int 3), (.str "KT1A", .int 2), (.str "KT1A%x", .int 1)]) = true := by decide +kernel
 
 /-! ### non-vacuity: an FA2-like storage with a named inner pair, a big_map literal, an enum and a composite map key -/
 def storageT : Ty :=
